@@ -297,6 +297,15 @@ def main(run):
         "side (HTTP response parsing) is not driven",
         "GnuTLS and libc are not instrumented"]
     run.prove()
+    if run.tier == "thorough":
+        # independent re-check of the compiled proofs (coqchk: kernel only, reports axioms)
+        rc, out = vlib.sh(["coqchk", "-silent", "-o", "-Q", ".", "LibcoapV", "LibcoapV.Properties_C02"],
+                          cwd=vlib.COQ, timeout=1800, check=False)
+        ok = rc == 0 and "* Axioms: <none>" in out
+        run.cov["coqchk"] = "ok, axioms: none" if ok else out[-600:]
+        if not ok:
+            run.violation("coqchk does not accept Properties_C02.vo (or finds axioms)", out[-4000:],
+                          tag="coqchk", no_input=True)
     model = vlib.build_model()
     drv_asan = vlib.build_driver("h_wire", ["h_wire.c"], variant="asan")
     drv_base = vlib.build_driver("h_wire", ["h_wire.c"])
